@@ -972,6 +972,11 @@ Definition check (c : sexp) : sexp :=
                                             then ["no-variable-values-but-variables-declared"] else [])
                                   | _ => []
                                   end)
+                              ++ (match field1 "schemamode" l with
+                                  | Some m => if is_sym "cloned" m
+                                              then ["schema-built-from-clone"] else []
+                                  | None => []
+                                  end)
                               ++ (match field1 "timed" l with
                                   | Some b => match as_bool b with Some true => ["time-based-connection"] | _ => [] end
                                   | None => []
